@@ -124,9 +124,42 @@ def inject(rng, t, toks):
         # any byte that is not JSON whitespace is "trailing non-whitespace" (VT, FF, NBSP, DEL ... included)
         if rng.random() < 0.5:
             b = rng.choice([11, 12, 1, 8, 14, 27, 28, 31, 127, 133, 160, 255] + [rng.choice([x for x in range(1, 256) if x not in (9, 10, 13, 32)])])
-            return kind, t.rstrip(b" \t\r\n") + rng.choice([b"", b" ", b"\n"]) + bytes([b]), True
+            gap = rng.choice([b"", b" ", b"\n"])
+            if gap == b"" and toks and toks[-1][0] == "num" and bytes([b]) in b"0123456789.eE+-":
+                return None      # glued to a number such a byte continues the number: not a trailing byte
+            return kind, t.rstrip(b" \t\r\n") + gap + bytes([b]), True
         return kind, t.rstrip(b" \t\r\n") + rng.choice([b"x", b" x", b"[1]", b" 2", b"}", b",", b"\"a\""]), True
     return None
+
+
+def py_value(t):
+    """denotation of a small float-free or float-bearing document through Python's reader (floats: IEEE bits + text)"""
+    import json, struct
+
+    class Pairs:
+        def __init__(self, items):
+            self.items = items
+
+    def conv(v):
+        if v is None or isinstance(v, bool):
+            return v
+        if isinstance(v, int):
+            return ("i", v) if v <= jvtext.INT64_MAX else ("u", v)
+        if isinstance(v, Fl):
+            return ("d", struct.unpack(">Q", struct.pack(">d", float(v.text)))[0], v.text.encode())
+        if isinstance(v, str):
+            return v.encode("utf-8")
+        if isinstance(v, list):
+            return [conv(x) for x in v]
+        d = {}
+        for k, x in v.items:
+            d[k] = x
+        return ("o", [(k.encode("utf-8"), conv(x)) for k, x in d.items()])
+
+    class Fl:
+        def __init__(self, text):
+            self.text = text
+    return conv(json.loads(t.decode("ascii"), object_pairs_hook=Pairs, parse_float=Fl))
 
 
 def gen(rng, tier):
@@ -137,6 +170,32 @@ def gen(rng, tier):
     for t, k in fixed:
         for fl in (0, STRICT):
             out.append((line(32, fl, ["Z" + hx(t)]), {"kind": "fixed-" + k, "ext": k, "text": t, "flags": fl, "neutral": False, "orig": None}))
+    # small scope, to saturation: a table of small documents x every (kind, position, variant) the injector can produce
+    # (drawn until 400 consecutive draws bring nothing new), each under strict, default and strict+allow-trailing
+    import random as _random
+    small_docs = [b'1', b'-2.5', b'"a"', b'true', b'null', b'[]', b'{}', b'[1]', b'[1,2]', b'{"k":1}', b'{"k":"v","j":null}', b'[[1],{"k":[true]}]',
+                  b' [ 1 , "x" ] ', b'{"a":{"b":[1.5e3,false]}}', b'["\\u00e9",0]', b'{"k":[]}', b'[{"k":1},2]']
+    r2 = _random.Random(12345)
+    for t in small_docs:
+        toks = scan(t)
+        try:
+            want = jvtext.dump(py_value(t))
+        except Exception:
+            want = None
+        seen, idle = set(), 0
+        while idle < 400 and len(seen) < 3000:
+            r = inject(r2, t, toks)
+            if r is None or r[1] in seen or b"\x00" in r[1]:
+                idle += 1
+                continue
+            idle = 0
+            kind, t2, neutral = r
+            seen.add(t2)
+            endpos = len(t.rstrip(b" \t\r\n"))
+            for fl in (0, STRICT, STRICT | TRAILING):
+                meta = {"kind": "small-scope-" + kind, "ext": kind, "text": t2, "flags": fl, "neutral": neutral and want is not None, "orig": want,
+                        "origlen": len(t), "endpos": endpos}
+                out.append((line(32, fl, ["Z" + hx(t2)]), meta))
     for i in range(ndocs):
         s, t = jsongen.gen_doc(rng, depth=rng.choice([0, 1, 2, 3]), width=rng.choice([2, 3, 5]), dup=False)
         if jsongen.names_have_nul(s) or jsongen.has_big(s):
